@@ -48,6 +48,14 @@ var props = map[string]propCfg{
 		Thorough:  tierCfg{Runs: 400000, Workers: 16, Budget: 9 * time.Minute, Seeds: 5},
 		Rule:      "one run = one middleware instance (Validator strict/non-strict with default or custom ErrFunc/LogFunc, or ValidationHandler.ServeHTTP/Middleware) over a seeded document-family member and a history of 1-4 requests (routable or not, valid or invalid by construction, body delivered by a chunk plan with optional mid-body fault) each answered by a scripted handler (call-sequence shape drawn from: silent, status-only, write-only, pieces, multi-status, write-then-status, informational-first, flush variants) observed by a net/http-faithful client writer with optional write fault. A run is non-trivial when it has at least one request; distinct = distinct (mode, ErrFunc, document member, router, history length, handler-shape sequence, auth behaviour, multi-error) tuples.",
 		DesignRef: "§3 SIM-MW"},
+	"C11": {Sim: "loader", Quick: tierCfg{Runs: 40000, Workers: 16, Budget: 60 * time.Second, Seeds: 1},
+		Thorough: tierCfg{Runs: 700000, Workers: 16, Budget: 9 * time.Minute, Seeds: 5},
+		Rule: "one run = one or two loads (fresh or reused Loader) of a generated multi-file layout in the simulated storage: root at one of {in-memory data, io.Reader, data+absolute path, data+http URL, relative file, absolute file, file:// URL, http, https}, 0-5 further documents (whole OpenAPI documents, bare single elements of each of the ten kinds, free-form JSON with fragments) in nested directories and on a second host, references of all ten resolver kinds planted at visited and unvisited positions in whole-file, fragment and missing-fragment form with chains/diamonds/cycles, canary references (parent escapes, absolute paths, http(s) and scheme-relative URLs), both switch settings, custom ReadFromURIFunc or the default reader (simulated os.ReadFile + RoundTripper), read faults. Invariant at every read event: switch off => the root location only (none at all for in-memory roots); switch on => location in the justified set J, and (custom reader) some already-delivered document refers to it. Non-trivial = the layout holds at least one reference; distinct = distinct (root form, reader, switch, reuse, file kinds, number of reads, faults) tuples.",
+		DesignRef: "§3 SIM-LOADER"},
+	"C02": {Sim: "loader", Quick: tierCfg{Runs: 40000, Workers: 16, Budget: 60 * time.Second, Seeds: 1},
+		Thorough: tierCfg{Runs: 700000, Workers: 16, Budget: 9 * time.Minute, Seeds: 5},
+		Rule: "same runs as C11. Clause (i): a location whose read failed (missing, enoent, eio, http 5xx, connection reset) and never succeeded in that load => the load returns an error. Clause (ii): every load terminates within a read budget (64+16*(1+references)*(1+files) reads) and an instrumentation-step budget, including on cyclic multi-file layouts and under faults. The main clause (resolved object == designated object) is a pure function of the file tree and is NOT decided.",
+		DesignRef: "§3 SIM-LOADER, §4 C02"},
 	"C13": {Sim: "stream", Quick: tierCfg{Runs: 48000, Workers: 16, Budget: 60 * time.Second, Seeds: 1},
 		Thorough:  tierCfg{Runs: 800000, Workers: 16, Budget: 9 * time.Minute, Seeds: 5},
 		Rule:      "one run = one request handed through the parties client stream -> authentication callbacks -> validation (1 or 2 validations with seeded options) -> next handler, over a seeded document (security requirement shapes at operation/document level; defaulted query/header/cookie parameters incl. arrays with explode true/false/unset; JSON body with defaults at top level, nested, in array items, inside allOf/oneOf/anyOf, object- and array-valued; form, multipart, text, undeclared bodies) with a seeded chunk plan, GetBody nil/ok/err, ContentLength exact/-1, Body nil/NoBody/empty, optional mid-body fault followed by a fault-free request on the same document. Oracles R1 (forwarded body readable in full; ContentLength/GetBody consistent), R2 (defaults exactly once against the ApplyDefaults reference model and the declared serialisation; byte identity when defaults are skipped; forwarded request validates again unchanged). Distinct = distinct (security shapes, parameter set, body kind/mode, GetBody, ContentLength, chunk-plan length, fault, options, callback behaviours) tuples.",
